@@ -72,7 +72,9 @@ var c12Ops = []string{">", ">=", "<", "<=", "==", "!=", "=", "<>"}
 
 var c12NumLits = []string{"0", "1", "5", "5", "5", "7", "-5", "5.5", "-5.5", "0.5", "-0.1", "100", "3.0", "2.5", "1000000",
 	"9007199254740992", "9007199254740993", "9007199254740991", "9223372036854775807", "9223372036854775806",
-	"-9223372036854775808", "4294967295", "255", "-128"}
+	"-9223372036854775808", "4294967295", "255", "-128",
+	// zero-padded integers (decimal for the general evaluator): 010 is ten, not eight
+	"010", "0100", "-017", "007", "08"}
 
 var c12StrLits = []string{"", "a", "abc", "abc", "5", "5.5", "a b", "A", "b", "ab", "abd", "a", "abc", "", "B", "true", "-5", "5", "x > 5", "&&", "||", "(a)"}
 
